@@ -214,12 +214,9 @@ class Eval:
         frame, exc_pos, exc_zero = [int(x) for x in s[3].split()]
         self.stats["half_unit_excursions_positive_area"] += exc_pos
         self.stats["half_unit_excursions_zero_area"] += exc_zero
-        if exc_pos:
-            # the half-unit tolerance of the harness (1/2 in y always, 1/2 in x when the margin is 0) exists only for cells of ZERO area
-            # (representation limit: the exported integer position of a cell whose centre sits on the box edge). A cell of positive area
-            # is spread strictly inside its bin: a use of the tolerance by such a cell is a violation, not a pass.
-            self.violations.append(("upper-bound placement exposes a movable cell of POSITIVE area with its centre outside the rows' bounding box "
-                                    "(by half a unit, %d exposures in this run)" % exc_pos, l, "excursions positive-area=%d zero-area=%d" % (exc_pos, exc_zero)))
+        # the harness tolerates exactly the slack PROVED for the composed model (Properties_C06_compose.v): half a unit for an odd placed
+        # size, nothing for an even one, per cell and axis; the two counters say how often that half unit was used (positive-area cells:
+        # only when a spread coordinate lands on a bin limit, see c06_half_unit_slack_attained_in_range)
         if s[2] != "-":
             what = s[2]
             kind = ("upper-bound placement exposes a movable cell with its centre outside the rows' bounding box"
@@ -662,7 +659,7 @@ def report(ctx, ev, proof_ok, proof, lines):
 
 
 def run(ctx):
-    proof_ok, proof = common.proof_status(ctx, "C06")
+    proof_ok, proof = common.proof_status_all(ctx, "C06", ["C06_compose"])
     harness = common.build_harness("global")
     driver = common.build_driver("global")
     lines, ncorpus, coinc = gen_cases(ctx, harness)
@@ -674,9 +671,18 @@ def run(ctx):
     f21 = f21_replay(ctx, harness, ev, ftie)
     for b in vmbad[:1]:
         ev.differences.append(("extracted OCaml model differs from vm_compute inside Coq", "-", b))
+    # the composed binary32 model of one upper-bound exposure (coq/GlobalCompose.v) against real exposures of real runs: spread
+    # coordinates bit for bit, exported integers exact, the proved centre bound judged on the C++ output
+    from checks import c06_compose
+    cres = c06_compose.run_compose(ctx, 30 if ctx.quick else 300, max_exposures=80 if ctx.quick else 800)
+    for x in cres["statement_fail"][:2]:
+        ev.violations.append(("upper-bound exposure violates the centre bound proved for the composed model: " + str(x[1])[:300], x[0], str(x[1:])[:600]))
+    for x in cres["mismatch"][:1]:
+        ev.differences.append(("composed model GlobalCompose.ub_exposure differs from the exposure of the real run: " + str(x[1])[:300], x[0], str(x[1:])[:600]))
     report(ctx, ev, proof_ok, proof, lines)
     gp = [l for l in lines if l.startswith("GP ")]
     cov = dict(proof)
+    cov["composed_model_tie"] = c06_compose.summary(cres)
     cov.update({
         "trusted_base": common.TRUSTED_BASE + [
             "binary32 rounding of blendPlacement, Eigen's conjugate gradient, the rough legalizer's choice of bins and "
@@ -707,8 +713,9 @@ def run(ctx):
                   "exact-coincidence stream: even sizes, groups of 3-7 cells connected only to each other with pins at the cell centres (or identical "
                   "cells with identical pin offsets), 2-5 identical cells stacked on one position and tied to one pad pin, nets with 2-5 pins on one "
                   "spot of one cell (both axes / x only / y only), circuits without any fixed pin, all movable cells starting on one position",
-        "slack": "centre vs rows' bounding box: x exact when the margin is >= 1 (else 1/2), y 1/2 (closed-interval clamp of cells without "
-                 "a bin + integer rounding of the lower-left; theorem c06_exported_centre_closed); excursions of exactly 1/2 are counted below",
+        "slack": "centre vs rows' bounding box, per cell and per axis: exact for an even placed size, 1/2 for an odd one (std::round of a half-integer "
+                 "lower-left): the bound PROVED for the composed binary32 model (c06_ub_exposed_centres_inside_rows_bbox) and attained "
+                 "(c06_half_unit_slack_attained_in_range); uses of the half unit are counted below",
         "statistics": ev.stats, "distribution": ev.dist,
         "domain_decisions": {
             "no_capacity (total bin capacity <= 0 after fixed cells, obstructions and the side margin)": "IN the quantifier (a movable cell of positive area, "
@@ -718,10 +725,10 @@ def run(ctx):
                 "and the model ties (bin limits, export, spreading) are evaluated there too: statistics.grid_ties_without_free_space",
             "row narrower than 4 row-heights / no movable cell of positive area / bin size below one unit / parameters rejected": "OUTSIDE the quantifier: "
                 "skipped and counted by reason in statistics.skipped_by_reason",
-            "half-unit tolerance of the centre oracle": "kept (1/2 in y always, 1/2 in x when the margin is 0); its uses are counted separately: "
-                "statistics.half_unit_excursions_positive_area must be 0 (any use by a cell of positive area is reported as a violation), "
-                "statistics.half_unit_excursions_zero_area is allowed (representation limit: a zero-area cell's exported integer position "
-                "can only represent its centre up to 1/2)"},
+            "half-unit tolerance of the centre oracle": "exactly the proved bound: 1/2 for an odd placed size, 0 for an even one, per cell and axis (before the "
+                "composed theorem existed the oracle allowed 1/2 in y always and in x for margin 0, and treated any use by a positive-area cell as a "
+                "violation: that demanded more than holds -- the in-range witness of c06_half_unit_slack_attained_in_range runs through "
+                "Circuit::placeGlobal with 2 such exposures); uses are counted in statistics.half_unit_excursions_positive_area / _zero_area"},
         "model_vs_impl_differences": len(ev.differences), "impl_outputs_violating_statement": len(ev.violations)})
     return ctx.finish(LEVEL, cov, [
         "completion without error, finiteness and the single-precision rounding are validated on the generated runs only (Eigen CG is outside the model)",
@@ -729,9 +736,9 @@ def run(ctx):
         "model follows the tree with the F15 repair (cells in no bin reported at their clamped target)",
         "binary32: the unclamped and the clamped (repair of F21, /repo 7b95a91) interpolation of spreadCells are both modelled; the run must equal one "
         "of them bit for bit on every case; F21 is recorded as fixed, an unclamped tree is reported as a violation",
-        "clause 1 (centre inside the rows' bounding box) is proved over Q and conditionally on C16's bins; for area-less cells and on the edge of the area "
-        "it is proved AND checked only up to 1/2 (the oracle accepts 1/2 in y always and 1/2 in x when the margin is 0: statistics half_unit_excursions_*); "
-        "in binary32 only the closed interval of the clamped expression is proved, not composed with the export",
+        "clause 1 (centre inside the rows' bounding box) is proved for the COMPOSED binary32 model of a circuit (grid, any view, any partition into bins of "
+        "positive-demand cells, any targets incl. NaN/inf, spreading, export) up to the half unit of std::round for an odd placed size, which is attained; "
+        "the view and its cell lists (C16), the solver's output and the stop tests of the run loop are oracles of that theorem",
         "circuits without free capacity (every row covered by obstructions, or only pieces <= 2*margin left) are IN the domain: run, judged and "
         "tied to the model, which follows the repaired code of finding F28 (placement area = bounding box of the rows, every bin capacity 0)",
         "sideMargin is kept at its default (it is not range-checked by the parameter check and not part of the property's quantifier); "
